@@ -10,6 +10,7 @@ CONSTANTS
   MaxKills = 100
   MaxInterrupts = 100
   RepairPartial = TRUE
+  TailSave = TRUE
   Planned = TRUE
 INIT Init
 NEXT Next
